@@ -109,7 +109,7 @@ def check_bump_fn(db, fn):
     name = fn['n']; probs = []
     ps = fn['params']
     for ch in (10, 13):
-        for count in range(0, 5):
+        for count in range(0, 7):
             sp = Space()
             for v in ('L', 'C', 'B'): sp.var(v, 4)
             for k in range(max(count, 1)): sp.var('b%d' % k, 256)
@@ -147,30 +147,11 @@ def check_bump_fn(db, fn):
     return sorted(set(probs))[:6]
 
 
-def loop_shape(fn):
-    """internal::bump visits the bytes 0..count-1 in order: for( i = 0; i < count; ++i )"""
-    from ..exc import walk
-    loops = walk(fn.get('body'), lambda n: n.get('k') in ('For', 'While', 'Do'), [])
-    if len(loops) != 1 or loops[0]['k'] != 'For': return ['expected exactly one for loop over the bytes']
-    lp = loops[0]; probs = []
-    d = (lp.get('init') or {}).get('decls') or []
-    if len(d) != 1 or (d[0].get('init') or {}).get('v') != 0: probs.append('the loop does not start at byte 0')
-    c = lp.get('cond') or {}
-    if not (c.get('k') == 'bin' and c.get('op') == '<' and (c.get('l') or {}).get('k') == 'cast' or (c.get('l') or {}).get('k') == 'ref'): probs.append('the loop condition is not i < count')
-    else:
-        from ..exc import leaves
-        if ('ref', 'count') not in leaves(c.get('r')) or ('ref', 'i') not in leaves(c.get('l')): probs.append('the loop condition is not i < count')
-    inc = lp.get('inc') or {}
-    if not (inc.get('k') == 'un' and inc.get('op') == '++'): probs.append('the loop does not advance byte by byte')
-    return probs
-
-
 def analyse_bump(db, R, kinds):
     for fn in db.order:
         if fn['q'] not in (TI + 'bump', TI + 'bump_in_this_line', TI + 'bump_to_next_line'): continue
         try:
             probs = check_bump_fn(db, fn)
-            if fn['n'] == 'bump': probs += loop_shape(fn)
         except (Unmodelled, Blowup, KeyError) as e:
             R.broke('%s: %s' % (fn['q'], e)); continue
         kinds['bump'] += 1
@@ -178,64 +159,104 @@ def analyse_bump(db, R, kinds):
         for p in probs: R.violation('P-bump', 'internal/bump.hpp::' + fn['n'], p, key=('bump', fn['n'], p))
 
 
-def call_of(fn):
-    """the single call statement of a forwarding function"""
-    b = fn.get('body') or {}
-    ss = [x for x in b.get('s', []) if x.get('k') != 'Null']
-    if len(ss) != 1 or ss[0].get('k') != 'Expr' or (ss[0].get('e') or {}).get('k') != 'call': return None
-    return ss[0]['e']
+def expected_cursor(sp, kind, ch, count, pat, L, C, B):
+    """( line, column, byte ) after `kind` over `count` bytes whose line-ending pattern is pat"""
+    if kind == 'bump':
+        last = max([k for k, x in enumerate(pat) if x], default=None)
+        return binop('+', L, Val.const(sum(pat))), (Val.const(count - last) if last is not None else binop('+', C, Val.const(count))), binop('+', B, Val.const(count))
+    if kind == 'bump_in_this_line': return L, binop('+', C, Val.const(count)), binop('+', B, Val.const(count))
+    return binop('+', L, Val.const(1)), Val.const(1), binop('+', B, Val.const(count))
+
+
+def differs(sp, reg, a, b):
+    if not isinstance(a, Val): return reg
+    d = binop('-', a, b)
+    if d.is_const(): return reg if d.off else None
+    return sp.AND(reg, sp.sumset(d.tabs, ((-INF, -1 - d.off), (1 - d.off, INF))))
+
+
+def input_object(sp, lazy, k=0):
+    """abstract *this of memory_input_base / buffer_input with symbolic counters"""
+    L, C, B = (Val({sp.byname[v].level: [10 * (i + 1) + x for x in range(4)]}) for i, v in enumerate(('L', 'C', 'B')))
+    it = Rec({'data': Ptr('cur', 0), 'byte': B, 'line': L, 'column': C})
+    if lazy: return Rec({'m_begin': it, 'm_current': Ptr('cur', k), 'm_end': Ptr('end', 0), 'm_source': Opaque('source')}), (L, C, B)
+    return Rec({'m_begin': Ptr('cur', 0), 'm_current': it, 'm_end': Ptr('end', 0), 'm_source': Opaque('source'), 'm_buffer': Opaque('buffer')}), (L, C, B)
+
+
+def forward_space(count):
+    sp = Space(); sp.var('avail', CAP + 1)
+    for v in ('L', 'C', 'B'): sp.var(v, 4)
+    for k in range(max(count, 1)): sp.var('b%d' % k, 256)
+    return sp
+
+
+def patterns(sp, cond, ch, count):
+    import itertools
+    for pat in itertools.product((0, 1), repeat=count):
+        reg = cond
+        for k, is_ch in enumerate(pat):
+            x = sp.restrict(sp.byname['b%d' % k].level, ((ch, ch),))
+            reg = sp.AND(reg, x) if is_ch else sp.DIFF(reg, x)
+        if reg is not None: yield pat, reg
+
+
+def check_forward(db, fn, pol, lazy):
+    """P-forward by evaluation: after in.bump*( n ) the cursor of the input is what the primitive of that name does to it with Eol::ch (eager,
+    buffer) / the pointer has advanced by n and nothing else happened (lazy); the lazy position( it ) is the bump definition applied to the begin
+    iterator over the bytes before it; byte() is the initial byte plus the bytes consumed"""
+    name = fn['n']; ch = EOLCH[pol]; probs = []
+    for count in range(0, 4):
+        sp = forward_space(count); it = Interp(db, sp)
+        this, (L, C, B) = input_object(sp, lazy, count if name in ('position', 'byte') else 0)
+        st = St(sp.restrict(sp.byname['avail'].level, ((count, CAP),)))       # the bytes skipped are available (C03)
+        st.env['this'] = this
+        ps = fn['params']
+        if name == 'position': st.env[ps[0]['id']] = Ptr('cur', count) if lazy else None
+        elif name != 'byte' and ps: st.env[ps[0]['id']] = Val.const(count)
+        for kind, v, s in outcomes(it, fn, st):
+            if kind not in ('fall', 'return'): raise Unmodelled('path ends with ' + kind)
+            t2 = s.env['this']
+            if name in ('bump', 'bump_in_this_line', 'bump_to_next_line'):
+                cur = t2.f['m_current']
+                if lazy:
+                    if not (isinstance(cur, Ptr) and cur.base == 'cur' and cur.off == count): probs.append('%s( %d ) leaves the lazy cursor at %r, expected begin + %d' % (name, count, cur, count))
+                    if t2.f['m_begin'] is not this.f['m_begin'] and repr(t2.f['m_begin']) != repr(this.f['m_begin']): probs.append('%s changes the begin iterator of a lazy input' % name)
+                    continue
+                if not isinstance(cur, Rec): raise Unmodelled('cursor %r' % (cur,))
+                for pat, reg in patterns(sp, s.cond, ch, count):
+                    wl, wc, wb = expected_cursor(sp, name, ch, count, pat, L, C, B)
+                    for f, w in (('line', wl), ('column', wc), ('byte', wb)):
+                        if differs(sp, reg, cur.f[f], w) is not None:
+                            probs.append('after %s( %d ) over bytes %s the %s of the cursor is not what internal::%s gives with the line-ending character %r of this input' % (name, count, ''.join('E' if x else '.' for x in pat) or '(none)', f, name, chr(ch)))
+                    if not (isinstance(cur.f['data'], Ptr) and cur.f['data'].off == count): probs.append('%s( %d ) advances the data pointer by %s' % (name, count, getattr(cur.f['data'], 'off', '?')))
+            elif name == 'position':
+                if not isinstance(v, Rec) or not all(f in v.f for f in ('byte', 'line', 'column')): raise Unmodelled('position result %r' % (v,))
+                for pat, reg in patterns(sp, s.cond, ch, count):
+                    wl, wc, wb = expected_cursor(sp, 'bump', ch, count, pat, L, C, B)
+                    for f, w in (('line', wl), ('column', wc), ('byte', wb)):
+                        if differs(sp, reg, v.f[f], w) is not None:
+                            probs.append('lazy position( begin + %d ) over bytes %s: %s is not the definition applied to the begin iterator' % (count, ''.join('E' if x else '.' for x in pat) or '(none)', f))
+            elif name == 'byte':
+                if differs(sp, s.cond, v, binop('+', B, Val.const(count if lazy else 0))) is not None:
+                    probs.append('byte() is not the initial byte plus the bytes consumed (%s tracking)' % ('lazy' if lazy else 'eager'))
+    return sorted(set(probs))[:4]
 
 
 def analyse_forward(db, R, kinds, covered):
-    """P-forward for memory_input_base< eager > and buffer_input (bump*), memory_input_base< lazy > (pointer advance, position(), byte())"""
-    from ..exc import walk, leaves
     for fn in db.order:
-        q = fn['q']; cls = (fn.get('cls') or {})
-        tn = cls.get('tn') or ''
+        cls = (fn.get('cls') or {}); tn = cls.get('tn') or ''
         if tn not in (TI + 'memory_input_base', T + 'buffer_input') or '/tao/pegtl/' not in fn['pat']: continue
         lazy = 'tracking_mode::lazy' in (cls.get('s') or '')
         m = re.search(r'eol::(\w+)', cls.get('s') or '')
         pol = m.group(1) if m else None
+        if fn['n'] not in ('bump', 'bump_in_this_line', 'bump_to_next_line') and not (fn['n'] == 'byte' and 'memory_input_base' in tn) and not (fn['n'] == 'position' and lazy and len(fn['params']) == 1): continue
         site = '%s::%s' % ('memory_input.hpp' if 'memory_input' in tn else 'buffer_input.hpp', fn['n'])
-        probs = None
-        if fn['n'] in ('bump', 'bump_in_this_line', 'bump_to_next_line'):
-            probs = []
-            if lazy:
-                ss = [x for x in (fn.get('body') or {}).get('s', [])]
-                e = (ss[0].get('e') if len(ss) == 1 and ss[0].get('k') == 'Expr' else None) or {}
-                if not (e.get('k') == 'bin' and e.get('op') == '+=' and (e.get('l') or {}).get('n') == 'm_current' and leaves(e.get('r')) == [('ref', 'in_count')]):
-                    probs.append('a lazy input must advance m_current by the count and nothing else')
-            else:
-                c = call_of(fn)
-                if c is None or c.get('cq') != TI + fn['n']: probs.append('does not forward to internal::%s' % fn['n'])
-                else:
-                    a = c.get('args', [])
-                    covered[site_of(c['loc'])] += 1
-                    if not a or (a[0].get('n') != 'm_current'): probs.append('the cursor passed on is not m_current')
-                    if len(a) < 2 or leaves(a[1]) != [('ref', 'in_count')]: probs.append('the count passed on is not the argument')
-                    if fn['n'] == 'bump' and (len(a) < 3 or a[2].get('v') != EOLCH.get(pol)): probs.append('the line-ending character passed on is not Eol::ch of the input (%r)' % (a[2].get('v') if len(a) > 2 else None))
-        elif fn['n'] == 'position' and lazy and 'memory_input_base' in tn:
-            probs = []
-            calls = walk(fn.get('body'), lambda n: n.get('k') == 'call' and n.get('cq') == TI + 'bump', [])
-            decls = [d for s2 in walk(fn.get('body'), lambda n: n.get('k') == 'Decl', []) for d in s2.get('decls', [])]
-            if len(calls) != 1: probs.append('the lazy position is not computed by one internal::bump')
-            else:
-                a = calls[0]['args']
-                c0 = [d for d in decls if d.get('id') == a[0].get('d')]
-                if not c0 or ('member', 'm_begin') not in leaves(c0[0].get('init')): probs.append('the position is not recomputed from a copy of the begin iterator')
-                lv = leaves(a[1])
-                if not (('ref', 'it') in lv and ('member', 'm_begin') in lv and walk(a[1], lambda n: n.get('k') == 'bin' and n.get('op') == '-', [])): probs.append('the number of bytes bumped is not it - m_begin.data')
-                if a[2].get('v') != EOLCH.get(pol): probs.append('the line-ending character is not Eol::ch')
-                rets = walk(fn.get('body'), lambda n: n.get('k') == 'Return', [])
-                if not rets or ('ref', c0[0]['n'] if c0 else '?') not in leaves(rets[-1].get('e')): probs.append('the returned position is not built from the bumped copy')
-        elif fn['n'] == 'byte' and 'memory_input_base' in tn:
-            probs = []
-            rets = walk(fn.get('body'), lambda n: n.get('k') == 'Return', [])
-            lv = leaves(rets[-1].get('e')) if rets else []
-            if lazy:
-                if ('member', 'byte') not in lv or not walk(rets[-1].get('e'), lambda n: n.get('k') == 'bin' and n.get('op') == '+', []): probs.append('lazy byte() does not add the initial byte of the begin iterator to the distance from the beginning')
-            elif ('member', 'byte') not in lv: probs.append('eager byte() is not the tracked byte counter')
-        if probs is None: continue
+        try:
+            probs = check_forward(db, fn, pol, lazy)
+        except (Unmodelled, Blowup, KeyError) as e:
+            R.broke('%s %s: %s' % (site, (cls.get('s') or '').replace(T, '')[:80], e)); continue
+        from ..exc import walk
+        for c in walk(fn.get('body'), lambda n: n.get('k') == 'call' and n.get('cq') in (TI + 'bump_in_this_line', TI + 'bump_to_next_line'), []): covered[site_of(c['loc'])] += 1
         kinds['forward'] += 1
         R.ob(ok=not probs, key=('forward', fn['disp']))
         for p in probs: R.violation('P-forward', site, '%s: %s' % ((cls.get('s') or '').replace(T, '')[:90], p), key=('forward', site, pol, lazy, p))
@@ -286,9 +307,14 @@ WRITERS = {   # who may write the cursor of an input or its counters (confirmed 
 RESTORE_CALLERS = (TI + 'rewind_guard<',)
 
 
-def cursor_lhs(l):
+def cursor_lhs(l, local_ids=()):
     if not isinstance(l, dict): return None
     while l.get('k') == 'cast': l = l['e']
+    # a local copy of an iterator (internal::inputerator c( m_begin ); bump( c, ... )) is not the cursor of an input
+    b = l.get('b') if l.get('k') == 'member' else None
+    while isinstance(b, dict) and b.get('k') == 'cast': b = b['e']
+    if isinstance(b, dict) and b.get('k') == 'ref' and b.get('d') in local_ids: return None
+    if l.get('k') == 'ref' and l.get('d') in local_ids: return None
     if l.get('k') == 'member' and l.get('n') in FIELDS and 'inputerator' in ((l.get('b') or {}).get('t') or '').replace('inputerator_t', ''): return 'counter ' + l['n']
     if l.get('k') == 'member' and l.get('n') == 'm_current': return 'm_current'
     if l.get('k') == 'call' and l.get('cn') == 'inputerator': return 'inputerator()'
@@ -314,29 +340,36 @@ def restores_saved_state(call, fn):
 def writers_of(path):
     """( {generic function name: [what is written]}, [callers of rewind_restore] ) for one extracted unit"""
     db = core.DB([path])
-    found = collections.defaultdict(set); callers = set(); nfn = 0
+    found = collections.defaultdict(set); callers = set(); resets = set(); nfn = 0
+    locals_of = {}
     def walk(n, fn):
         if isinstance(n, dict):
             k = n.get('k')
             if k == 'bin' and (n['op'] == '=' or (n['op'].endswith('=') and n['op'] not in ('==', '!=', '<=', '>='))):
-                w = cursor_lhs(n.get('l'))
+                w = cursor_lhs(n.get('l'), locals_of.get('cur', ()))
                 if w: found[fn['q']].add(w + ' ' + n['op'])
             elif k == 'un' and n.get('op') in ('++', '--'):
-                w = cursor_lhs(n.get('e'))
+                w = cursor_lhs(n.get('e'), locals_of.get('cur', ()))
                 if w: found[fn['q']].add(w + ' ' + n['op'])
             elif k == 'call':
                 if n.get('opc') in ('=', '+=', '-=', '++', '--') and n.get('args'):
-                    w = cursor_lhs(n['args'][0])
+                    w = cursor_lhs(n['args'][0], locals_of.get('cur', ()))
                     if w: found[fn['q']].add(w + ' operator' + n['opc'])
                 if n.get('cn') == 'rewind_restore' and not restores_saved_state(n, fn): callers.add(fn['q'])
+                if n.get('cn') == 'restart' and 'memory_input_base<tao::pegtl::tracking_mode::eager' in (n.get('cq') or '') and '/tao/pegtl/' in fn['pat']:
+                    resets.add(fn['q'])
             for v in n.values(): walk(v, fn)
         elif isinstance(n, list):
             for v in n: walk(v, fn)
+    from ..exc import walk as awalk
     for fn in db.order:
-        if '/tao/pegtl/' not in fn['pat'] and 'rewind_restore' not in json.dumps(fn.get('body'))[:0]: pass
         nfn += 1
+        loc = set()
+        for d in [d for s2 in awalk(fn.get('body'), lambda n: n.get('k') == 'Decl', []) for d in s2.get('decls', [])]:
+            if not (d.get('t') or '').strip().endswith('&'): loc.add(d.get('id'))
+        locals_of['cur'] = loc
         walk(fn.get('body'), fn)
-    return {re.sub(r'<.*>', '<>', q): sorted(v) for q, v in found.items()}, sorted(callers), nfn
+    return {re.sub(r'<.*>', '<>', q): sorted(v) for q, v in found.items()}, sorted(callers) + ['reset:' + q for q in sorted(resets)], nfn
 
 
 def analyse_writers(R, kinds, tier):
@@ -356,6 +389,11 @@ def analyse_writers(R, kinds, tier):
         R.ob(ok=ok, key=('writer', q))
         if not ok: R.violation('P-writers', q.replace(T, ''), 'writes the cursor of an input (%s) but is not one of the position primitives: a position written here is not a function of the consumed prefix' % ', '.join(sorted(v)), key=('writer', q))
     for q in sorted(callers):
+        if q.startswith('reset:'):
+            kinds['restore-caller'] += 1
+            R.ob(ok=False, key=('reset', q))
+            R.violation('P-writers', re.sub(r'<.*>', '<>', q[6:]).replace(T, ''), 'a library rule calls the counter-resetting restart( byte, line, column ) of an eagerly tracked input: the position continues from the given (default 0:1:1) counters, not from the consumed prefix; a sub-range is re-entered through restart( rewind guard )', key=('reset', re.sub(r'<.*>', '<>', q)))
+            continue
         kinds['restore-caller'] += 1
         ok = q.startswith(RESTORE_CALLERS)
         R.ob(ok=ok, key=('restore', q))
@@ -439,7 +477,7 @@ def run(tier):
         if kinds.get(k, 0) < fl: R.broke('only %d %s obligations (floor %d)' % (kinds.get(k, 0), k, fl))
     R.assumptions = ['UTF-16/32 and multi-byte binary rules are outside the statement (documented exclusion); the ICU rules use the general bump()',
                      'single-unit and fixed-string rules are decided exactly for all inputs whose relevant window is 9 bytes; the digit, chunk-size and raw-string scanners on all class strings up to the bound; '
-                     'internal::bump is evaluated for counts 0..4 with symbolic counters and its loop shape (i = 0; i < count; ++i) is checked, which gives the per-byte definition for every count',
+                     'internal::bump and the forwarding functions of the inputs are evaluated for counts 0..6 / 0..3 with symbolic counters and all line-ending patterns; the loops are uniform in the byte index',
                      'backtracking restores whole iterators (rewind guards; P-writers shows nothing else writes the cursor), so histories do not matter']
     return R.finish(
         'Who-may-write inventory of the cursor; exact evaluation of the bump primitives; justification of every position shortcut call site by the byte facts known on the paths that reach it '
